@@ -7,6 +7,7 @@ C04 — Interleaved scheduler: main stream, batch cutting and stopping point are
 budget test after every update.
 -/
 import KDVerif.Lemmas.Interleaved
+import KDVerif.Lemmas.InterleavedStream
 
 namespace KDVerif.C04
 open KDVerif.Interleaved
@@ -123,6 +124,34 @@ theorem drop_last_remainder (a : Args) (hB : 0 < a.B) :
     have hm := Nat.mod_lt a.N hdpos
     rw [Nat.mul_comm] at this
     omega
+
+/-- **the main stream does not depend on the interleaved configs running in between**: projecting the stream
+    onto the main sampler's indices gives exactly the stream of the same sampler without any config
+    (whose update blocks are just the flagged batches `chunkEvs`, see `l1Evs_noCfg`) -/
+theorem main_stream_independent_of_configs (a : Args) (main : Nat → List Nat) (side : Nat → Nat → List Nat)
+    (hmainlt : ∀ e x, x ∈ main e → x < a.mainDsLen) (n : Nat) (s : Start) :
+    (l1 a main side n s).map (mainProj a.mainDsLen) = l1 (noCfg a) main side n s :=
+  l1_mainProj a main side hmainlt n s
+
+/-- without configs an update block is exactly the next batch with flags F…FT -/
+theorem noconfig_update_is_a_batch (a : Args) (side : Nat → Nat → List Nat) (u : U) :
+    l1Evs (noCfg a) side u = chunkEvs (u.xs.take (l1R a u)) := l1Evs_noCfg a side u
+
+/-- **updates budget is exact**: a run with `updates = U` started at update counter `u₀ < U` contains exactly
+    `U - u₀` main batches (= optimizer updates) — not one more or fewer, for every geometry and config set -/
+theorem updates_budget_exact (a : Args) (main : Nat → List Nat) (side : Nat → Nat → List Nat)
+    (hB : 0 < a.B) (hS : 0 < spe a) (hmain : ∀ e, spe a ≤ (main e).length)
+    (hmainlt : ∀ e x, x ∈ main e → x < a.mainDsLen) (Ub : Nat) (hbud : a.budget = .updates Ub)
+    (n : Nat) (s : Start) (evs : List Ev) (hlt : s.update < Ub) (h : l1 a main side n s = some evs) :
+    countFull a.mainDsLen evs = Ub - s.update :=
+  l1_countFull_updates a main side hB hS hmain hmainlt Ub hbud n s evs hlt h
+
+/-- **epochs budget is exact and epochs are announced in order**: with `epochs = E` started at epoch `e₀ < E`
+    the `set_epoch` calls are exactly `e₀, e₀+1, …, E-1` -/
+theorem epochs_budget_exact (a : Args) (main : Nat → List Nat) (side : Nat → Nat → List Nat)
+    (E : Nat) (hbud : a.budget = .epochs E) (n : Nat) (s : Start) (evs : List Ev) (hlt : s.epoch < E)
+    (h : l1 a main side n s = some evs) : epochsOf evs = List.range' s.epoch (E - s.epoch) :=
+  l1_epochsOf a main side E hbud n s evs hlt h
 
 /-- non-vacuity: a concrete accepted geometry with a checkpoint before the budget -/
 example : ctor ⟨5, 5, 2, true, none, .epochs 2, []⟩ .none = .ok ⟨0, 0, 0⟩ ∧
